@@ -28,7 +28,7 @@ def nontrivial(ops, tags):
 
 
 def gen(rng, tier):
-    n = 160 if tier == "quick" else 3000
+    n = 160 if tier == "quick" else 15000
     cases = []
     for k in range(n):
         if rng.random() < 0.8:
